@@ -115,7 +115,8 @@ type Server struct {
 	Exec     map[int32]int
 	ExecLog  []int32
 	AckedIDs map[int64]bool
-	Content  []int64 // server msg_ids sent with odd seq_no
+	Content  []int64        // server msg_ids sent with odd seq_no
+	AllSent  map[int64]bool // every msg_id the server has used (messages, container items, containers)
 	Queue    []*Out
 	Script   []Event // spontaneous events still available (each at most once)
 	Opt      Options
@@ -170,6 +171,10 @@ func (s *Server) nextID(parity int64) int64 {
 		id = (s.lastID&^3 + 4) | parity
 	}
 	s.lastID = id
+	if s.AllSent == nil {
+		s.AllSent = map[int64]bool{}
+	}
+	s.AllSent[id] = true
 	return id
 }
 
